@@ -133,12 +133,12 @@ def _alarm(*a):
 
 def call(fn):
     signal.signal(signal.SIGALRM, _alarm)
-    signal.alarm(20)
+    signal.alarm(60)
     try:
         fn()
         return None
     except Hang:
-        return ('hang', 'Hang', 'no result within 20 s')
+        return ('hang', 'Hang', 'no result within 60 s')
     except Exception as e:
         import traceback
         tb = traceback.extract_tb(e.__traceback__)
